@@ -46,7 +46,7 @@ def _find(body, parts, setter=False):
                     if is_setter != setter:
                         continue
                 return node
-            if isinstance(node, ast.ClassDef):
+            if isinstance(node, (ast.ClassDef, ast.FunctionDef)):
                 r = _find(node.body, parts[1:], setter)
                 if r is not None:
                     return r
